@@ -17,12 +17,13 @@ SPEC = {
     "harness_args": {"quick": ["-tier", "quick"], "thorough": ["-tier", "thorough"]},
     "timeout": {"quick": 900, "thorough": 3000},
     "level": "proof",
-    "tie": "T2: Generated/FactsC07.lean is regenerated from shard/shard.go on every run (Commit(true) on every error path, Commit(false) on success, counters written only after the merged pipeline error was checked) and pinned by C07_error_paths_commit_fail; T3 as fault enumeration: a storage proxy (VerifWrapDB) fails the k-th Put/Delete/scan, the k-th bucket-manager Get, or exits at the k-th storage call / right before commit / right after commit, in a child process on a copy of the database file; answers and bucket digests of the running instance and of the reopened file are compared with the pre-batch values (error / death before commit) or with a fault-free run (success / death after commit); the point-store calls and outcomes of the same runs are replayed by the Lean model",
+    "tie": "T2: Generated/FactsC07.lean is regenerated from shard/shard.go on every run (Commit(true) on every error path, Commit(false) on success, counters written only after the merged pipeline error was checked) and pinned by C07_error_paths_commit_fail; T3 as fault enumeration: a storage proxy (VerifWrapDB) fails the k-th Put/Delete/scan, the k-th bucket-manager Get, THE COMMIT ITSELF (the Write callback runs to completion and returns nil, then the proxy makes bbolt roll back and Write return an error: fault position = number of storage calls), or exits at the k-th storage call / right before commit / right after commit, in a child process on a copy of the database file; answers and bucket digests of the running instance and of the reopened file are compared with the pre-batch values (error / death before commit) or with a fault-free run (success / death after commit); the point-store calls and outcomes of the same runs are replayed by the Lean model",
     "required_theorems": [
         "Sema.C07.C07_atomic", "Sema.C07.C07_error_observe", "Sema.C07.C07_success_keeps_written",
         "Sema.C07.C07_fault_reports_error", "Sema.C07.C07_rejection_reports_error", "Sema.C07.C07_clean_run_succeeds",
         "Sema.C07.C07_entry_points_atomic", "Sema.C07.C07_crash_is_write_branch_assumed",
         "Sema.C07.C07_error_paths_commit_fail",
+        "Sema.C07.C07_commit_fault_atomic", "Sema.C07.C07_commit_by_closure_flag_not_atomic",
     ],
     "trusted_base": [
         "ASSUMED, not verified: bbolt commits atomically and durably (Base/KV.lean Disk.write: a write transaction is all-or-nothing; process death before commit = its error branch, after commit = its ok branch). Crash points therefore have no proof; they are exercised by the harness only (exit at the k-th storage call, right before and right after commit, then the file is reopened)",
